@@ -472,7 +472,11 @@ func (i *interpreter) hostArg(v value) interface{} {
 		if x.t == nil {
 			return nil
 		}
-		// error / Stringer: call the target's method when cheap and concrete
+		// error / Stringer: call the target's method when cheap and concrete (a String method run on
+		// symbolic data would fork on formatting decisions, e.g. calendar arithmetic of a time)
+		if hasSymbolic(x.v, 6) {
+			return opaqueArg{"<symbolic>"}
+		}
 		if s, ok := i.tryStringMethod(x); ok {
 			return opaqueArg{s}
 		}
